@@ -199,15 +199,37 @@ func e2ePatch(c *e2eCtx) error {
 		}
 		rounds := 1 + r.Intn(3)
 		for rd := 0; rd < rounds; rd++ {
-			if !c.patchRound(s, r, rd) {
+			if !c.patchRound(s, r, rd, nil) {
 				return
 			}
+		}
+		// directed pair (one in two projects): a component loses its last tracking point through
+		// delete markers, then receives its first one again through an insert marker
+		if r.Intn(2) == 0 {
+			var mains []*proj.Pkg
+			for _, pk := range s.p.Pkgs {
+				if pk.IsMain {
+					mains = append(mains, pk)
+				}
+			}
+			dirs := s.closureDirs(mains[r.Intn(len(mains))])
+			if !c.patchRound(s, r, rounds, &patchDirective{dirs: dirs, deleteAll: true}) {
+				return
+			}
+			c.patchRound(s, r, rounds+1, &patchDirective{dirs: dirs, inserts: 1 + r.Intn(2)})
 		}
 	})
 	return nil
 }
 
-func (c *e2eCtx) patchRound(s *scenario, r *rand.Rand, rd int) bool {
+// patchDirective restricts a round to the files of some directories (a component's import closure)
+type patchDirective struct {
+	dirs      map[string]bool
+	deleteAll bool
+	inserts   int
+}
+
+func (c *e2eCtx) patchRound(s *scenario, r *rand.Rand, rd int, dv *patchDirective) bool {
 	c.mu.Lock()
 	c.res.Evaluations++
 	c.mu.Unlock()
@@ -220,7 +242,25 @@ func (c *e2eCtx) patchRound(s *scenario, r *rand.Rand, rd int) bool {
 	}
 	mode := r.Intn(8)
 	nd, ni := 0, 0
+	var sub []string
+	if dv != nil {
+		mode = 8
+		if !dv.deleteAll {
+			mode = 9
+		}
+		for _, p := range files {
+			if dv.dirs[filepath.Dir(p)] {
+				sub = append(sub, p)
+			}
+		}
+	}
 	switch {
+	case mode == 8: // every block of one component
+		nd = flipDeletes(edited, sub, r, 0, true)
+	case mode == 9: // insert markers into the files of one component only
+		if len(sub) > 0 {
+			ni = addInserts(edited, sub, r, dv.inserts)
+		}
 	case mode == 0: // no markers at all
 	case mode == 1: // everything deleted
 		nd = flipDeletes(edited, files, r, 0, true)
@@ -296,7 +336,7 @@ func (c *e2eCtx) patchRound(s *scenario, r *rand.Rand, rd int) bool {
 	if len(in.BadBlocks) > 0 {
 		c.violate("C10", "tracking call outside a well-formed block after patch: "+strings.Join(in.BadBlocks, ", "), rp(nil))
 	}
-	c.judgeC05(s, in, rp)
+	c.judgeC05As("C05,C10", s, in, rp)
 	if total == 0 {
 		if _, err := os.Stat(filepath.Join(s.dir, s.cfg.PkgPath, "goat_generated.go")); err == nil {
 			c.violate("C10", "no tracking point left but the generated file still exists", rp(nil))
@@ -309,5 +349,5 @@ func (c *e2eCtx) patchRound(s *scenario, r *rand.Rand, rd int) bool {
 	if ok, out := proj.GoBuild(s.dir); !ok {
 		c.violate("C10", "project does not build after patch: "+firstLine(out, ""), rp(map[string]any{"build": tail(out, 1200)}))
 	}
-	return total > 0
+	return total > 0 || dv != nil
 }
